@@ -84,10 +84,14 @@ fn run_sched(args: &[String]) -> i32 {
                         *seen += 1;
                         // determinism: replay the failing schedule twice more
                         let sched = tr.schedule();
+                        // the same schedule must fail the same way every time (the trace itself may
+                        // legitimately differ where the runner iterates a `HashMap`)
                         let t2 = exec::execute(cfg, &exec::stream_subject, &sched);
                         let t3 = exec::execute(cfg, &exec::stream_subject, &sched);
-                        let stable = t2.outcome_hash() == tr.outcome_hash()
-                            && t3.outcome_hash() == tr.outcome_hash();
+                        let again = |t: &exec::Trace| {
+                            oracles::check_all(cfg, t).iter().any(|w| w.prop == v.prop && w.key == v.key)
+                        };
+                        let stable = again(&t2) && again(&t3);
                         let finding = findings::explain(cfg, tr, &v);
                         violations.push(json!({
                             "property": prop,
